@@ -579,4 +579,6 @@ def stages(tier):
               exhaustive=True),
         Stage("profiles", "enum", eval_profiles, enumerate=_shard_cases(n=6 if q else 7, kmax=3), exhaustive=True),
         Stage("big", "hyp", eval_big, n=3000 if q else 100000, strategy=big_lists),
+        # the same generator and oracle driven by libFuzzer (atheris) with coverage feedback from /repo/src
+        Stage("fuzz_big", "hypfuzz", eval_big, n=6000 if q else 400000, strategy=big_lists, shards=4 if q else 16),
     ]
